@@ -157,6 +157,13 @@ def m_fmt_txt(recs):
     return recs, k + 1, "one byte of the text written by the real writer changed"
 
 
+def m_reset_fill(recs):
+    # the reset that follows a change of the initialization strategy: one register of the new machine changed
+    k = first(recs, lambda r: r["ev"] == "Host" and r.get("op") == "reset")
+    recs[k]["proj"]["regs"][3][0] ^= 1
+    return recs, k + 1, "a register of the machine built by reset changed"
+
+
 CASES = [
     ("tables-decode", ["decode"], "TV_Tables", "TV_Tables.cfg", "i", m_decode, 3000),
     ("tables-offset", ["offset"], "TV_Tables", "TV_Tables.cfg", "i", m_offset, 2000),
@@ -179,6 +186,10 @@ CASES = [
     ("fmt-accept", ["fmt", "n=60"], "TV_Fmt", "TV_Fmt.cfg", "l", m_fmt_accept, 0),
     ("fmt-word", ["fmt", "n=60"], "TV_Fmt", "TV_Fmt.cfg", "l", m_fmt_byte, 0),
     ("fmt-text", ["fmt", "n=20"], "TV_Fmt", "TV_Fmt.cfg", "l", m_fmt_txt, 0),
+    # replayed behaviours (specification -> implementation -> specification): headers of kind `pattern` / `light`
+    ("rp-machine-pc", ["replay", "machine", "@hist:[12288,32768,12288,65535,12288,0,0,1,4095]\n[65023,2,65023,0,65024,0,1,2,32768]\n",
+                       "@ops:MC_Machine_ops.ndjson"], "TV_Machine", "TV_Machine.cfg", "l", m_machine_pc, 0),
+    ("rp-reset-fill", ["replay", "reset", "@hist:[26,1]\n[5,4]\n", "@ops:MC_Reset_ops.ndjson"], "TV_Machine", "TV_Machine.cfg", "l", m_reset_fill, 0),
 ]
 
 
@@ -193,7 +204,20 @@ def main(ck, argv):
         if want and name not in want:
             continue
         base = os.path.join(work, name + ".ndjson")
-        ck.lc3v(["emit"] + emit, base, 1, "quick")
+        if emit[0] == "replay":
+            args = []
+            for a in emit:
+                if a.startswith("@hist:"):
+                    hp = os.path.join(work, name + ".hist")
+                    with open(hp, "w") as f:
+                        f.write(a[len("@hist:"):])
+                    a = "hist=" + hp
+                elif a.startswith("@ops:"):
+                    a = "ops=" + os.path.join(ck.SPEC, a[len("@ops:"):])
+                args.append(a)
+            ck.lc3v(args, base, 1, "quick")
+        else:
+            ck.lc3v(["emit"] + emit, base, 1, "quick")
         recs = load(base)
         if cut and len(recs) > cut:
             recs = recs[:cut]
